@@ -95,12 +95,13 @@ def handle (line : String) : String :=
     | none => "none"
   | ["map", i] =>
     match i.toNat? >>= fun k => Gen.cMaps[k]? with
-    | some m => (if mapOk m then "ok " else "BAD shared map with unpaired key/value record: ") ++ nameStr m.name ++ s!" key={m.keyType} value={m.valType}"
+    | some m => (if mapOk m then "ok " ++ nameStr m.name
+       else s!"BAD map {nameStr m.name} has a Go handle (bpfMaps) but its key `{m.keyType}` / value `{m.valType}` record has no entry in `pairing` (lean/DaeVerif/C19/Model.lean): add the pairing with the Go type that mirrors it, or, if the control plane never reads or writes the map's contents, add the map to `handleOnlyMaps`")
     | none => "none"
   | ["mapio", i] =>
     match i.toNat? >>= fun k => Gen.goMapIO[k]? with
     | some c =>
-      if !mapIOOk c then "BAD Go hands a map a key/value that is not the type paired with the C record (or has the wrong size): " ++ mapIOProblem c
+      if !mapIOOk c then "BAD Go hands a map a key/value that is not the type paired with the C record (or has the wrong size; `0 bytes` = the translator could not type the argument: give it a concrete type or teach translators/c19_go findMapIO the new call shape): " ++ mapIOProblem c
       else if !constKeyOk c then s!"BAD constant map key {c.const} used on {nameStr c.map} ({c.what}, result kind `{nameStr c.kind}`, at {c.at_}) is not the C constant it stands for"
       else "ok " ++ nameStr c.map ++ " " ++ c.what
     | none => "none"
@@ -108,13 +109,13 @@ def handle (line : String) : String :=
     match i.toNat? >>= fun k => Gen.cConsts[k]? with
     | some c =>
       if cConstClassified c.1 then "ok " ++ nameStr c.1
-      else s!"BAD C constant {nameStr c.1}={c.2} is neither paired with a Go constant nor listed kernel-only (cKernelOnlyConsts): decide whether the control plane mirrors it"
+      else s!"BAD C constant {nameStr c.1}={c.2} is neither paired nor classified: if the control plane mirrors it add `(n!\"<Go constant, e.g. control.x or consts.X>\", n!\"{nameStr c.1}\")` to `fixedConstPairs`, otherwise add `(n!\"{nameStr c.1}\", \"<reason>\")` to `cKernelOnlyConsts` (lean/DaeVerif/C19/Model.lean)"
     | none => "none"
   | ["fieldlit", i] =>
     match i.toNat? >>= fun k => Gen.goFieldLiterals[k]? with
     | some l =>
       if fieldLiteralOk l then s!"ok {nameStr l.1}.{nameStr l.2.1}=={l.2.2.1}"
-      else s!"BAD Go compares {nameStr l.1}.{nameStr l.2.1} with the literal {l.2.2.1} at {l.2.2.2}: not the value of the C constant it mirrors (or an unlisted comparison; see fieldLiteralMeaning)"
+      else s!"BAD Go compares {nameStr l.1}.{nameStr l.2.1} with the literal {l.2.2.1} at {l.2.2.2}: not the value of the C constant it mirrors; if this is a new comparison add `(n!\"{nameStr l.1}\", n!\"{nameStr l.2.1}\", n!\"<C constant it mirrors, or empty for a zero test>\")` to `fieldLiteralMeaning` (lean/DaeVerif/C19/Model.lean)"
     | none => "none"
   | ["param", i] =>
     match i.toNat? >>= fun k => paramContents[k]? with
@@ -135,10 +136,34 @@ def handle (line : String) : String :=
       else s!"BAD Go type {nameStr t} is handed to cilium/ebpf but its encoding/binary layout does not agree with the C record (implicit padding): " ++
         " ; ".intercalate ((pairing.filter (fun p => nameEq p.go t)).flatMap (fun p => pairProblems Gen.cRecs Gen.goPacked p))
     | none => "none"
+  | ["progcheck"] =>
+    let a := Gen.goProgAttach.filter (!progAttachOk ·)
+    let u := Gen.goProgUses.filter (!progUseOk ·)
+    let r := Gen.goSpecMapRefs.filter fun n => (findMap n Gen.cMaps).isNone
+    let k := goMapKindExpect.filter (!mapKindOk ·)
+    let t := Gen.goNewMapTypes.filter (!newMapTypeOk ·)
+    if a.isEmpty && u.isEmpty && r.isEmpty && k.isEmpty && t.isEmpty then "ok programs, sections and map kinds"
+    else "BAD " ++ " ; ".intercalate (
+      a.map (fun x => s!"program {nameStr x.1} is attached as {nameStr x.2} but lives in section {((progSection? x.1).map (nameStr ·.1)).getD "?"} (expected {((lookupNameOpt x.2 attachSection).map nameStr).getD "an attach type missing from attachSection in Model.lean"})")
+      ++ u.map (fun p => s!"program {nameStr p} is used by the control plane but is neither in the cgroup attach table nor in a tc/ section ({((progSection? p).map (nameStr ·.1)).getD "not in C"})")
+      ++ r.map (fun n => s!"the loader looks up spec.Maps[{nameStr n}] which the C program does not define")
+      ++ k.map (fun x => s!"map {nameStr x.1} has BPF_MAP_TYPE {((findMap x.1 Gen.cMaps).map (·.mtype)).getD 0}, the control plane's use presupposes {x.2} (goMapKindExpect)")
+      ++ t.map (fun x => s!"{nameStr x.1} creates ebpf.{nameStr x.2} maps but unused_lpm_type declares type {((findMap n!"unused_lpm_type" Gen.cMaps).map (·.mtype)).getD 0}"))
+  | ["overridecheck"] =>
+    if overrideConsistent then "ok MAX_MATCH_SET_LEN override"
+    else s!"BAD MAX_MATCH_SET_LEN: Makefile default/-D/-X = {Gen.makefileMaxMatchSetLen.1}/{Gen.makefileMaxMatchSetLen.2.1}/{Gen.makefileMaxMatchSetLen.2.2}, Go default {goC? n!"consts.MaxMatchSetLen"}, C default {cC? n!"MAX_MATCH_SET_LEN"}, C with -DMAX_MATCH_SET_LEN=2048 gives [N, bitmap words, routing_map, lpm_array_map, MAX_LPM_NUM] = {Gen.cOverride2048}"
+  | ["widthcheck"] =>
+    if specFits Gen.specData && enumStorageOk then "ok generated values fit their storage"
+    else "BAD the checked-in spec has more than 256 match types or a value above 255, or match_set.type/outbound are no longer one byte wide on both sides"
+  | ["cmacsite", e, _site, hex] =>
+    match parseEndian? e, hexToBytes? hex with
+    | some e, some [a, b, c, d, f, g] => bytesToHex (cLpmProbe e (cMacPack e a b c d f g))
+    | _, _ => "bad-op"
   | ["statscheck"] => if statsKeysCovered then "ok both overflow counters are read" else "BAD the control plane no longer reads both bpf_stats_map counters through recognisable constant keys"
   | ["classify"] =>
     let bad := (goRecsFor n!"amd64").filter fun r => !(pairing.any (fun p => nameEq p.go r.name) || nameMem r.name goOnlyTypes)
-    if bad.isEmpty then "ok" else "BAD unclassified Go data types: " ++ ",".intercalate (bad.map (nameStr ·.name))
+    if bad.isEmpty then "ok" else "BAD new plain-data Go struct type(s) " ++ ",".intercalate (bad.map (nameStr ·.name))
+      ++ ": if it mirrors a C record add `{ c := n!\"<record>\", go := n!\"<this name>\", fields := [(Go field, C member), …], cAlt := [] }` to `pairing` in lean/DaeVerif/C19/Model.lean (and the type to c19Types in harness/overlay/control/c19_test.go); if it is not shared with the kernel add its name to `goOnlyTypes`"
   | ["handles"] =>
     let m := Gen.goMapTags.filter fun t => (findMap t Gen.cMaps).isNone
     let p := Gen.goProgTags.filter fun t => !nameMem t Gen.cProgs
